@@ -11,6 +11,7 @@ Observation language (one block per subject, same as the Lean driver prints):
 from __future__ import annotations
 
 import re
+import zlib
 import warnings
 
 from diagram_gen import DScn, enc, pyvalue, trans_events, value_text
@@ -263,9 +264,20 @@ def observe(s: DScn) -> Observed:
     G = grapher(s)
     ob.fill, ob.pen = str(G.state_active_fillcolor), str(G.state_active_penwidth)
 
+    keep = {}
+
     def snap(subject, x, direct):
         try:
-            g = x._graph() if direct else G(x)()
+            if direct:
+                g = x._graph()
+            elif subject[0] == "inst" and zlib.crc32(s.name.encode()) % 3 == 0:
+                # one renderer object, built when the instance was created and used again after every event
+                # (the usage shown in the documentation)
+                if "r" not in keep:
+                    keep["r"] = G(x)
+                g = keep["r"]()
+            else:
+                g = G(x)()
             text = g.to_string()
             objs = read_objects(g)
         except InvalidStateValue:
